@@ -1404,6 +1404,14 @@ package compose
 
 //@ spec trieShape() bool = forall(mm map[string]any, k string :: in(k, mm) ==> is(mm[k], "struct{}") || (is(mm[k], "map[string]any") && unbox(mm[k], "map[string]any") != nil))
 
+//@ func (*WorkflowNode).SetStaticValue
+//@   props C20
+//@   requires n != nil && n.g != nil && n.staticValues != nil
+//@   modifies map(n.staticValues)
+//@   ensures[frozen_after_compile] @C20 n.g.compiled ==> forall(k string :: in(k, n.staticValues) == old(in(k, n.staticValues)) && n.staticValues[k] == old(n.staticValues[k]))
+//@   ensures[chaining] result == n
+//@   note after a successful Compile the graph can no longer be modified: a static value set afterwards would reach the runnable produced by the next Compile
+
 //@ func (*WorkflowNode).checkAndAddMappedPath
 //@   props C15
 //@   requires n != nil && n.mappedFieldPath != nil
